@@ -7,6 +7,7 @@ maps every value of its source type to that integer in the field.
 -/
 import Decaf.Props.C11
 import Decaf.Lemmas.Formulas.OpForms
+import Decaf.Lemmas.Formulas.FieldFns
 
 namespace C11.Translated
 open Model
@@ -31,5 +32,36 @@ theorem from_int_forms_fp (n : ℕ) (hn : n < 2 ^ 128) :
     ∀ f ∈ (Gen.FieldOpForms.fromIntForms : List (String × ((List ℕ → ZMod p) → ℕ → ZMod p))),
       f.2 (fun l => ((Formulas.FieldOpForms.limbsVal l : ℕ) : ZMod p)) n = (n : ZMod p) :=
   from_int_forms _ (fun _ => rfl) n hn
+
+/-! ### the byte-level wrappers (`from_bytes_checked`, `from_le_bytes_mod_order`, `to_bytes` of `Fq`, `Fr`, `Fp`; bodies
+regenerated on every run by translator/extract_fieldfns.py) -/
+
+/-- **checked parsing accepts exactly the integers below the modulus**, on the translated code of all three fields -/
+theorem from_bytes_checked_iff (bs : List ℕ) (hb : ∀ b ∈ bs, b < 256) (v : ℕ) :
+    (bs.length = 32 → (Code.fqFromBytesChecked bs = some v ↔ leBytes bs < q ∧ v = leBytes bs)) ∧
+    (bs.length = 32 → (Code.frFromBytesChecked bs = some v ↔ leBytes bs < r ∧ v = leBytes bs)) ∧
+    (bs.length = 48 → (Code.fpFromBytesChecked bs = some v ↔ leBytes bs < p ∧ v = leBytes bs)) := by
+  unfold Code.fqFromBytesChecked Code.frFromBytesChecked Code.fpFromBytesChecked
+  rw [Formulas.FieldFns.fq_from_bytes_checked_eq, Formulas.FieldFns.fr_from_bytes_checked_eq, Formulas.FieldFns.fp_from_bytes_checked_eq]
+  exact C11.from_bytes_checked_iff bs hb v
+
+/-- **reduction of byte strings of any length is the integer modulo the modulus**, on the translated code -/
+theorem from_le_bytes_mod_order_spec (bs : List ℕ) :
+    Code.fqFromLeBytesModOrder bs = leBytes bs % q ∧ Code.frFromLeBytesModOrder bs = leBytes bs % r ∧
+    Code.fpFromLeBytesModOrder bs = leBytes bs % p := by
+  unfold Code.fqFromLeBytesModOrder Code.frFromLeBytesModOrder Code.fpFromLeBytesModOrder
+  rw [Formulas.FieldFns.fq_from_le_bytes_mod_order_eq, Formulas.FieldFns.fr_from_le_bytes_mod_order_eq,
+    Formulas.FieldFns.fp_from_le_bytes_mod_order_eq]
+  exact C11.from_le_bytes_mod_order_spec bs
+
+/-- **`to_bytes` emits the canonical little-endian form, which the translated checked parser reads back** -/
+theorem to_bytes_canonical (x : ℕ) :
+    (x < q → (Code.fqToBytes x).length = 32 ∧ leBytes (Code.fqToBytes x) = x ∧ Code.fqFromBytesChecked (Code.fqToBytes x) = some x) ∧
+    (x < r → (Code.frToBytes x).length = 32 ∧ leBytes (Code.frToBytes x) = x ∧ Code.frFromBytesChecked (Code.frToBytes x) = some x) ∧
+    (x < p → (Code.fpToBytes x).length = 48 ∧ leBytes (Code.fpToBytes x) = x ∧ Code.fpFromBytesChecked (Code.fpToBytes x) = some x) := by
+  unfold Code.fqFromBytesChecked Code.frFromBytesChecked Code.fpFromBytesChecked Code.fqToBytes Code.frToBytes Code.fpToBytes
+  simp only [Formulas.FieldFns.fq_from_bytes_checked_eq, Formulas.FieldFns.fr_from_bytes_checked_eq, Formulas.FieldFns.fp_from_bytes_checked_eq,
+    Formulas.FieldFns.fq_to_bytes_eq, Formulas.FieldFns.fr_to_bytes_eq, Formulas.FieldFns.fp_to_bytes_eq]
+  exact C11.to_bytes_canonical x
 
 end C11.Translated
